@@ -44,9 +44,9 @@ ReadDiagA(c, tr, got, scaled, alt) ==
   ELSE IF scaled /\ (\E s \in 1..Len(c.tr) : (c.tr[s].intab \/ ~alt) /\ got.vars[s].units # ExpUnit(c, tr, s))
        THEN "unit is not the one of the tracer table (of the data header for a tracer without a table line)"
   ELSE IF got.tau0 # [t \in 1..c.nt |-> Tau0(c, t)] THEN "tau0 (time bounds)"
-  ELSE IF got.tau1 # [t \in 1..c.nt |-> Tau0(c, t) + 24] THEN "tau1 (time bounds)"
+  ELSE IF got.tau1 # [t \in 1..c.nt |-> Tau1(c, t)] THEN "tau1 (time bounds)"
   \* the time_bounds variable, when the reader defines it: row t = [tau0[t], tau1[t]]
-  ELSE IF Len(got.tb) > 0 /\ got.tb # [t \in 1..c.nt |-> <<Tau0(c, t), Tau0(c, t) + 24>>] THEN "time_bounds rows are not [tau0, tau1] of each block"
+  ELSE IF Len(got.tb) > 0 /\ got.tb # [t \in 1..c.nt |-> <<Tau0(c, t), Tau1(c, t)>>] THEN "time_bounds rows are not [tau0, tau1] of each block"
   ELSE ""
 
 ReadDiag(c, tr, got, scaled) == ReadDiagA(c, tr, got, scaled, FALSE)
